@@ -394,9 +394,12 @@ def main(argv):
     n_proof = len([o for o in discharged if o['kind'] in ('proof', 'complete')])
     n_bounded = len([o for o in discharged if o['kind'] == 'bounded'])
     level = P['level']
+    n_all_proof = len([o for o in all_obs if o['kind'] in ('proof', 'complete')])
     cov = {
-        'obligations': len(all_obs),
-        'discharged': len(discharged) if not undecided else 0,
+        # for a proof-level claim only unbounded / complete obligations are counted here; bounded stand-ins are listed separately
+        'obligations': n_all_proof if level == 'proof' else len(all_obs),
+        'discharged': (n_proof if level == 'proof' else len(discharged)) if not undecided else 0,
+        'bounded_standin_obligations': len([o for o in all_obs if o['kind'] == 'bounded']),
         'discharged_unbounded_or_complete': n_proof,
         'discharged_bounded_standins': n_bounded,
         'checker_cmd': 'verus <unit>.rs --output-json --time --multiple-errors 200 --triggers-mode silent --error-format=json ; '
